@@ -78,7 +78,8 @@ const char vs_enc_names[8];
 static inline bool vs_nondet_bool(void) { bool b; return b; }
 struct vs_promise { int state; };       /* 1 rejected here, 2 whatever the transport's promise becomes, 3 resolved */
 struct vs_rawbuf { size_t size; };
-size_t g_aw_calls, g_aw_len, g_buffer_calls, g_buffer_size, g_pow_calls; bool g_rejected_made;
+size_t g_aw_calls, g_aw_len, g_buffer_calls, g_buffer_size, g_pow_calls, g_clear_calls, g_tflush_calls; bool g_rejected_made, g_clear_before_write;
+static inline void vs_buf_clear(void) { if (g_aw_calls == 0) g_clear_before_write = 1; g_clear_calls++; }
 static inline struct vs_promise vs_promise_rejected(void) { struct vs_promise p; p.state = 1; g_rejected_made = 1; return p; }
 static inline struct vs_promise vs_promise_resolved(void) { struct vs_promise p; p.state = 3; return p; }
 static inline struct vs_promise vs_promise_then(const struct vs_promise *p) { return *p; }
@@ -163,7 +164,8 @@ STUBS = {
     'Pistache::Async::Promise::rejected': {'expr': 'vs_promise_rejected()'}, 'Pistache::Async::Promise::resolved': {'expr': 'vs_promise_resolved()'},
     'Pistache::Tcp::Transport::asyncWrite': 'vs_async_write',
     'Pistache::Async::Promise::then': {'expr': 'vs_promise_then($this)'},
-    'Pistache::DynamicStreamBuf::buffer': {'expr': 'vs_buf_buffer()'}, 'Pistache::RawBuffer::size': {'expr': '(($this)->size)'},
+    'Pistache::DynamicStreamBuf::buffer': {'expr': 'vs_buf_buffer()'}, 'Pistache::DynamicStreamBuf::clear': {'expr': 'vs_buf_clear()'},
+    'Pistache::Tcp::Transport::flush': {'expr': '((void)(g_tflush_calls++))'}, 'Pistache::RawBuffer::size': {'expr': '(($this)->size)'},
     'ctor:Pistache::Error/1': {'expr': '((struct vs_opaque){0})'},
     'forward': {'expr': '($0)'}, 'move': {'expr': '($0)'},
     'baseinit:Pistache::Http::Header::Header': '((void)0)',
@@ -187,7 +189,7 @@ RECORDS = ['Pistache::Http::Header::EncodingHeader', 'Pistache::Http::Header::Tr
 EXCEPTIONS = {'std::runtime_error': 'VS_EXC_RUNTIME_ERROR', 'Pistache::Error': 'VS_EXC_RUNTIME_ERROR'}
 ENUMS = ['Pistache::Http::Version', 'Pistache::Http::Code', 'Pistache::Http::Header::Encoding']
 DEFAULT_RULE = True
-ASSUME_PISTACHE = ['Pistache::Http::Timeout', 'Pistache::Tcp::Peer', 'Pistache::Http::ResponseWriter::peer', 'Pistache::Error',
+ASSUME_PISTACHE = ['Pistache::Http::Timeout', 'Pistache::Tcp::Peer', 'Pistache::Http::ResponseWriter::peer', 'Pistache::Http::ResponseStream::peer', 'Pistache::Error',
                    # sendImpl's Content-Type handling: the header collection and the media type are assumed externals (C16 / C18)
                    'Pistache::Http::Mime::MediaType::', 'Pistache::Http::Header::Collection::', 'Pistache::Http::Header::ContentType', 'ctor:Pistache::Http::Header::ContentType', 'Pistache::Http::ResponseWriter::headers']
 ASSUME_NOTHROW = ['Pistache::Http::Timeout', 'Pistache::Tcp::Peer']
@@ -327,6 +329,15 @@ FUNCTIONS += [
         ensures vs_exc == 0 ==> (g_pow_calls == 1 && this->response_.vs_base_Message.code_ == code)
         ensures g_pow_calls <= 1"""},
 ]
+FUNCTIONS += [
+    {'q': 'Pistache::Http::ResponseStream::flush', 'dflt_ref': 'malloc', 'contract': """
+        requires FRESH(this, sizeof(*this)) && vs_exc == 0 && g_aw_calls == 0 && g_buffer_calls == 0 && g_clear_calls == 0 && g_tflush_calls == 0 && !g_clear_before_write
+        assigns *this, vs_exc, g_aw_calls, g_aw_len, g_buffer_calls, g_buffer_size, g_clear_calls, g_tflush_calls, g_clear_before_write
+        # C05 (streamed response: what was written is sent, once): the bytes stored so far are handed to the transport exactly once, the
+        # transport is flushed, and only then the buffer is emptied -- so nothing is lost and nothing is sent again by the next flush
+        ensures vs_exc == 0 ==> (g_buffer_calls == 1 && g_aw_calls == 1 && g_aw_len == g_buffer_size && g_tflush_calls == 1 && g_clear_calls == 1 && !g_clear_before_write)
+        ensures g_aw_calls <= 1 && !g_clear_before_write"""},
+]
 PROOFS = [
     {'name': 'writeStatusLine', 'enforce': 'Pistache_Http_writeStatusLine', 'props': ['C05']},
     {'name': 'writeHeaders', 'enforce': 'Pistache_Http_writeHeaders', 'loops': 'contracts', 'props': ['C05']},
@@ -335,5 +346,6 @@ PROOFS = [
     {'name': 'writeHeader_TransferEncoding', 'enforce': 'writeHeader_TransferEncoding', 'props': ['C05']},
     {'name': 'ResponseStream_ctor', 'enforce': 'ResponseStream_ctor', 'replace': W + ['writeHeader_TransferEncoding'], 'defs': ['-DVS_LIGHT'], 'props': ['C05']},
     {'name': 'sendImpl', 'enforce': 'Pistache_Http_ResponseWriter_sendImpl', 'replace': ['Pistache_Http_ResponseWriter_putOnWire'], 'defs': ['-DVS_LIGHT'], 'props': ['C05']},
+    {'name': 'ResponseStream_flush', 'enforce': 'Pistache_Http_ResponseStream_flush', 'props': ['C05']},
     {'name': 'putOnWire', 'enforce': 'Pistache_Http_ResponseWriter_putOnWire', 'replace': W, 'defs': ['-DVS_LIGHT'], 'props': ['C05'], 'cost': 30},
 ]
